@@ -34,6 +34,7 @@ def emitValue (cfg : ECfg) (al : List (Str × Val)) (e : EN) (esc translate : Bo
         pure (Val.str r)
       | _ => mUnsupported "tal:content with i18n:translate=\"\" of a value that is not text"
     else pure v0)
+  liftX (fun env => offerCall cfg env v)
   let q ← mLiftR (toQIn cfg v)
   let t := if esc then quoteVal Site.content.q Site.content.qe none q else convertVal q
   match t with
